@@ -126,6 +126,15 @@ def jobs_C01(tier, seed):
             sc['objects'] = {f'k{s_}': s_}
             scns.append(inline(sc))
     jobs.append({'name': 'sweep copy', 'scns': scns, 'bound': 0, 'want': want})
+    # (1b) part checksums: with a ChecksumAlgorithm in force every listed part carries S3's checksum
+    scns = []
+    for algo in ('SHA256', 'CRC32C'):
+        for rcc in ('when_required', 'when_supported'):
+            for tr in (T_up('path', 5, extra={'ChecksumAlgorithm': algo}), T_up('nonseekable', 7, extra={'ChecksumAlgorithm': algo}),
+                       T_up('seekable', 6, start=1, extra={'ChecksumAlgorithm': algo}), T_cp('o5', extra={'ChecksumAlgorithm': algo}),
+                       T_cp('o7', extra={'ChecksumAlgorithm': algo})):
+                scns.append(inline(scn([tr], seed=seed, rcc=rcc)))
+    jobs.append({'name': 'part checksums', 'scns': scns, 'bound': 0, 'want': want})
     # (2) body protocol: client-level retries cutting the body anywhere, short reads
     for rcc in ('when_required', 'when_supported'):
         for src, size in (('path', 5), ('seekable', 5), ('nonseekable', 5), ('path', 3), ('nonseekable', 3)):
@@ -577,4 +586,21 @@ def jobs_C18(tier, seed):
 
 
 def jobs_for(prop, tier, seed):
-    return globals()[f'jobs_{prop}'](tier, seed)
+    jobs = globals()[f'jobs_{prop}'](tier, seed)
+    if tier == 'thorough':
+        # fine granularity (every point is a preemption point, incl. body/stream reads) with the
+        # coordinator's unlocked fields as scheduling points (reads and writes): one preemption
+        extra = []
+        for j in jobs:
+            sc = j.get('scn')
+            if sc is None or sc.get('mode') == 'inline' or len(sc.get('transfers', ())) > 2:
+                continue
+            b = j['bound'] if isinstance(j['bound'], dict) else {'sched': j['bound']}
+            if b.get('sched', 0) < 1:
+                continue
+            sc2 = copy.deepcopy(sc)
+            sc2.update(granularity='fine', fields=True, field_reads=True)
+            extra.append(dict(j, name=j['name'] + ' [fine+fields]', scn=sc2,
+                              bound=dict(b, sched=1), max_execs=400000))
+        jobs = jobs + extra[:16]
+    return jobs
